@@ -1,3 +1,4 @@
+(* model: c18-idmap *)
 (* drv_idmap.ml: runs IdMapModel on an op script and prints the same observation
    lines (and "diag ..." lines) as harness/wb_idmap.c.
 
